@@ -565,15 +565,17 @@ class Parser:
             return ("closure", params, body)
         if k == "id":
             path = [self.eat()[1]]
+            gens = {}
             while True:
                 if self.at("::"):
                     self.eat()
                     if self.at("<"):
-                        self.generic_args()
+                        gens[len(path) - 1] = self.generic_args().replace(" ", "")
                         continue
                     path.append(self.eat()[1])
                     continue
                 break
+            self.last_gens = gens
             if self.at("!") and self.peek(1)[1] in ("(", "[", "{"):
                 self.eat("!")
                 open_ = self.eat()[1]
@@ -605,6 +607,8 @@ class Parser:
                         self.eat()
                 self.eat("}")
                 return ("struct", path, fields)
+            if gens:
+                return ("path", path, gens)
             return ("path", path)
         raise Untranslatable(f"expression not understood at {v!r}")
 
@@ -1281,6 +1285,8 @@ class Emitter:
             data = cfg["slice_parsers"][e[1][1][1][0]]
             fn = "takeLE" if e[1][2] == "read_usized" else "takeLEs"
             return (f"(unwrapped (({fn} {data} " + "{0}).bind fun x => .ok x.1))", list(e[1][3]), False)
+        if e[0] == "call" and e[1][0] == "path" and self.path_text_g(e[1]) in cfg.get("read_calls", {}):
+            return (cfg["read_calls"][self.path_text_g(e[1])], [a for a in e[2] if not self.is_parser(a)], True)
         if e[0] == "call" and e[1][0] == "path" and self.path_text(e[1][1]) in cfg.get("read_calls", {}):
             return (cfg["read_calls"][self.path_text(e[1][1])], [a for a in e[2] if not self.is_parser(a)], True)
         if e[0] == "mcall" and e[2] == "unwrap" and not e[3]:
@@ -1290,6 +1296,11 @@ class Emitter:
             if cfg.get("unwrap_options") and not self.has_effect(r):
                 return ("(unwrapOpt {0})", [r], False)
         return None
+
+    def path_text_g(self, f):
+        """path text with the turbofish arguments kept: `Count::<u8>::parse` ↦ `Count<u8>::parse`"""
+        gens = f[2] if len(f) > 2 else {}
+        return "::".join(seg + (f"<{gens[i]}>" if i in gens else "") for i, seg in enumerate(f[1]))
 
     def is_parser(self, e):
         while e[0] in ("ref", "paren"):
